@@ -265,7 +265,9 @@ CHECKS = {
              "(= Sig::high_bits), sort_key < num_sort_keys; also after reload (full/eps/mmap). 'Same at build and query "
              "time' is also decided end to end by the vbuild family: sharded functions and filters of every sharding "
              "logic, and hints on the other side of a sharding threshold, answered through the aligned and the "
-             "unaligned getters (Trace_VBuild, hook events for shard bits).",
+             "unaligned getters (Trace_VBuild, hook events for shard bits); the store side of 'the shard index equals "
+             "the high bits used by the signature store' by the sigstore family (every bucket/shard bit triple, in "
+             "memory and on disk, skewed high bits).",
         note=TRUST + "The floating-point parameter formulas are not modelled (parameters are read from the log and "
              "only the contract is checked); n <= 10^12; geometry for design membership is parsed from Display.",
         design_ref="5/C16"),
